@@ -460,6 +460,14 @@ func attrMarch(thorough bool) []desc {
 	// two cubes per unit: the box [42,58]x[5,20]^2 covers cells 83..117 (two blocks); half a cube per unit: one block
 	out = append(out, desc{Entry: "march", NFun: 2, Cutoff: surfaceOffset, CPU: 2, Fields: []fieldDesc{sphereField([3]int{42, 5, 5}, [3]int{58, 20, 20}, 15)}})
 	out = append(out, desc{Entry: "march", NFun: 1, Cutoff: surfaceOffset, CPU: 0.5, Fields: []fieldDesc{sphereField([3]int{150, 20, 20}, [3]int{250, 100, 100}, 71)}})
+	// 32 cubes per unit and samples EXACTLY on the cutoff: the signed-distance sphere of radius 10/32 around (1,1,1)
+	// passes through the lattice points (10,0,0), (6,8,0), (0,6,8) ... cells from its centre, so surface vertices sit
+	// vertexCornerMargin = 1e-3 cells = 3e-5 units from lattice corners: whatever is done after the block marches
+	// (weld, scale) must be done in the same order and units by both variants.  The second field keeps the canvas
+	// out of the single-field cell count (cells that are exactly 0 are not counted as written).
+	out = append(out, desc{Entry: "march", NFun: 1, Cutoff: 0, CPU: 32, Fields: []fieldDesc{
+		{Lo: [3]int{1, 1, 1}, Hi: [3]int{2, 2, 2}, C: [3]int{1, 1, 1}, R: 0.3125},
+		{Lo: [3]int{2, 2, 2}, Hi: [3]int{2, 2, 2}, C: [3]int{2, 2, 2}, R: 0.01}}})
 	if thorough {
 		out = append(out, desc{Entry: "march", NFun: 2, Cutoff: planeCutoff(a, 1), MAttr: 1, CPU: 2, Fields: []fieldDesc{sphereField([3]int{42, 5, 5}, [3]int{58, 20, 20}, 15)}})
 		out = append(out, desc{Entry: "march", NFun: 1, Cutoff: surfaceOffset, Fields: []fieldDesc{c3, b2, a}})
@@ -850,12 +858,17 @@ func buildPlan(tier string, seed uint64, n int) []desc {
 			d.RaceSub = (nn < 100000 && k%4 == 1) || (thorough && nn < 400000)
 		}
 		d.Salt = r.Intn(1000)
-		d.Mesh = meshVariant(e, r.Intn(60))
+		mv, conc, retain := meshVariant(e, r.Intn(60)), 0, 0
 		if r.Chance(1, 6) {
-			d.Conc = r.Range(2, 4)
+			conc = r.Range(2, 4)
 		}
 		if e.Entry == "modify" && r.Chance(1, 4) {
-			d.Retain = r.Range(1, 2)
+			retain = r.Range(1, 2)
+		}
+		if d.N < 50000 {
+			// (the extra attributes, callers and calls multiply the memory traffic of a case: keep the largest
+			// element counts on the plain mesh)
+			d.Mesh, d.Conc, d.Retain = mv, conc, retain
 		}
 		if thorough {
 			d.Procs = hx.Pick(r, []int{0, 1, 2, 16})
